@@ -311,6 +311,58 @@ def check(model, rep):
                 rep.ob('R15.1', fi, name, False, 'this separating axis is never tested on the accepting path (segments separated '
                        'only along it are reported as obstructed)', line=lp.lineno)
     rep.floor('R15.1', 'rejecting guards recognised', n_guards, 4)
+    # R15.4 the set of registered boxes belongs to one planner
+    rep.rule('R15.4', 'each planner owns its obstruction list: __init__ binds self.obstructions to a fresh list on every path (not to a mutable default '
+                      'argument / class attribute shared between instances); only addObstruction adds to it')
+    ini = cls.methods.get('__init__')
+    if ini is None:
+        raise AnalysisError('anchor vanished: RRTStar.__init__')
+    il_i = Inliner(ini) if False else None
+    stores_i = [n for n in walk_own(ini.node) if isinstance(n, ast.Assign) and any(src(t) == 'self.obstructions' for t in n.targets)]
+    rep.ob('R15.4', ini, 'self.obstructions initialised by the constructor', bool(stores_i),
+           'the constructor does not create the obstruction list (a class-level list would be shared by every planner)')
+
+    def fresh(e, depth=0):
+        """the value is a new container on every call"""
+        if isinstance(e, (ast.List, ast.ListComp, ast.Tuple)):
+            return True
+        if isinstance(e, ast.Call) and isinstance(e.func, ast.Name) and e.func.id in ('list', 'tuple', 'sorted'):
+            return True
+        if isinstance(e, ast.Call) and isinstance(e.func, ast.Attribute) and e.func.attr == 'copy' and not e.args:
+            return True
+        if isinstance(e, ast.Call) and src(e.func) in ('copy.copy', 'copy.deepcopy'):
+            return True
+        if isinstance(e, ast.IfExp):
+            return fresh(e.body, depth) and fresh(e.orelse, depth)
+        if isinstance(e, ast.BoolOp) and isinstance(e.op, ast.Or):
+            return fresh(e.values[-1], depth)          # `given or []` : the fall-back is fresh; a given list is the caller's own
+        return False
+    for st_ in stores_i:
+        v_ = st_.value
+        shared_default = None
+        if isinstance(v_, ast.Name) and v_.id in ini.params:
+            d_ = ini.defaults.get(v_.id)
+            rebinds = [n for n in walk_own(ini.node) if isinstance(n, ast.Assign) and any(isinstance(t, ast.Name) and t.id == v_.id for t in n.targets)]
+            if d_ is not None and isinstance(d_, (ast.List, ast.Dict, ast.Set, ast.Call, ast.ListComp)) and not rebinds:
+                shared_default = src(d_)
+        ok_ = fresh(v_) or (isinstance(v_, ast.Name) and shared_default is None)
+        rep.ob('R15.4', ini, src(st_)[:70], ok_,
+               ('the list is the default value %s of parameter `%s`, created once when the class is defined: every planner built without that argument '
+                'shares it, so boxes added to one planner obstruct segments in another' % (shared_default, src(v_))) if shared_default else
+               'self.obstructions is bound to %s, which is not a list created for this instance' % src(v_), line=st_.lineno)
+    cls_level = [n for n in cls.node.body if isinstance(n, (ast.Assign, ast.AnnAssign)) and 'obstructions' in src(n).split('=')[0]]
+    rep.ob('R15.4', ini, 'no class-level obstruction list', not cls_level, 'a class attribute `obstructions` is shared by all planners', line=cls_level[0].lineno if cls_level else None)
+    writers = set()
+    for f_ in model.all_funcs:
+        for n in walk_own(f_.node):
+            if isinstance(n, ast.Call) and isinstance(n.func, ast.Attribute) and n.func.attr in ('append', 'extend', 'insert', 'remove', 'pop', 'clear') \
+                    and isinstance(n.func.value, ast.Attribute) and n.func.value.attr == 'obstructions':
+                writers.add(f_.qualname)
+            if isinstance(n, (ast.Assign, ast.AugAssign)) and any(isinstance(t, ast.Attribute) and t.attr == 'obstructions'
+                                                                   for t in (n.targets if isinstance(n, ast.Assign) else [n.target])):
+                writers.add(f_.qualname)
+    rep.ob('R15.4', ini, 'writers of the obstruction list', writers <= {'RRTStar.__init__', 'RRTStar.addObstruction'},
+           'the obstruction list is also written by %s' % sorted(writers - {'RRTStar.__init__', 'RRTStar.addObstruction'}))
     # R15.3 addObstruction
     ao = cls.methods.get('addObstruction')
     if ao is None:
